@@ -73,6 +73,28 @@ def lookahead_guards(R, rep):
             rep.ob("R2", "30-day:ticker-guard", ok, "a candidate's operation is examined only after `candidate.ticker == sale.ticker`" if ok else
                    "the 30-day look-ahead examines candidates of other securities: one security's purchases can be matched to another's sale",
                    b.loc(t["sp"]), key="R2:bnb:ticker-guard")
+    # …or the candidate is handed to helpers from inside the loop (`look_ahead.match_against_buy(idx, tx, ..)`): every such
+    # call must sit under the same guard (written as a branch in the loop body or as a `.filter(..)` of the iterator chain)
+    for i, t in b.calls():
+        hb = F.bodies.get(t["callee"])
+        if hb is None or hb.crate != b.crate or not b.in_loop(i) or hb.id.startswith("cgt_core::matcher::acquisition_ledger::"):
+            continue
+        args = [tb.operand(a) for a in t["args"]]
+        cand = [a for a in args if "next(" in show(a, 0) and any(isinstance(x, tuple) and len(x) == 3 and x[0] == "field" and x[2] in ("operation", "1")
+                                                                   for x in subterms(a)) or (isinstance(a, tuple) and a and a[0] == "some")]
+        if not cand:
+            continue
+        found = True
+        ok = False
+        for cond, val, s in guards_of(b, tb, i):
+            if isinstance(cond, tuple) and cond[0] == "cmp" and cond[1] in ("Ne", "Eq"):
+                l, r = show(cond[2]), show(cond[3])
+                if l.endswith(".ticker") and r.endswith(".ticker") and ("next(" in l) != ("next(" in r):
+                    if (cond[1] == "Ne" and not truth(val)) or (cond[1] == "Eq" and truth(val)):
+                        ok = True
+        rep.ob("R2", "30-day:ticker-guard", ok, "a candidate is handed on only after `candidate.ticker == sale.ticker`" if ok else
+               f"the 30-day look-ahead hands candidates of other securities to {hb.short.split('::')[-1]}: one security's purchases (or splits) can affect another's sale",
+               b.loc(t["sp"]), key="R2:bnb:ticker-guard")
     if not found:
         rep.unresolved("R2", "bnb-candidate-match", "no match on the candidate's operation inside the 30-day loop")
     # helpers that iterate the whole slice with a filter closure
